@@ -521,6 +521,50 @@ def rule_panics(rep):
     rep.ob(R, "scan", seen > 0, "%d explicit panic sites enumerated" % seen, "src/")
 
 
+def _vecvec_dim(init):
+    """inner length expression of vec![vec![_; LEN]; CH] (else None)"""
+    if init is not None and init.get("k") == "macro" and init.get("repeat") and init["repeat"][0].get("k") == "macro" and init["repeat"][0].get("repeat"):
+        return init["repeat"][0]["repeat"][1], init["repeat"][1]
+    return None, None
+
+
+def rule_fft_buffers(rep):
+    """Lengths of the per-channel buffers of the three FFT adapters, from the constructors:
+    overlaps[chan] must be exactly fft_size_out long (resample_unit copies the second half of the inverse transform into it with copy_from_slice);
+    FftFixedIn's staging buffer must hold the largest carry-over (fft_size_in - 1 frames, a remainder) plus one chunk - the append is a zip, which
+    silently drops what does not fit."""
+    import ineq
+    facts = rep.ctx.facts
+    R = "R-C03-fft-capacity"
+    for t in ("FftFixedInOut", "FftFixedOut", "FftFixedIn"):
+        cfn, cst, inits = ctor_state(facts, t)
+        fr = None
+        for x in walk(inits.get("resampler") or {}):
+            if x.get("k") == "call" and is_path(x["f"]) and x["f"]["p"].endswith("new") and len(x["args"]) == 2:
+                fr = x["args"]
+        dim, ch = _vecvec_dim(inits.get("overlaps"))
+        ok = fr is not None and dim is not None and nbit(dim) == nbit(fr[1]) and nbit(ch) == nbit(inits.get("nbr_channels"))
+        rep.ob(R, "%s/overlap-length" % t, ok,
+               "overlaps = vec![vec![0; %s]; %s] ; each channel's overlap must be exactly the fft_size_out given to FftResampler::new (%s), one per channel"
+               % (show(dim)[:60] if dim else None, show(ch)[:30] if ch else None, show(fr[1])[:60] if fr else None), loc(cfn))
+    t = "FftFixedIn"
+    cfn, cst, inits = ctor_state(facts, t)
+    dim, ch = _vecvec_dim(inits.get("input_buffers"))
+    ok = False
+    detail = "input_buffers is not vec![vec![_; len]; channels]"
+    if dim is not None:
+        calg = Alg(TypeEnv(locals_={p["name"]: "int" for p in cfn["params"]}))
+        D = calg.conv(dim)
+        FI = calg.conv(inits["fft_size_in"])
+        CI = calg.conv(inits["chunk_size_in"])
+        a, b = sp.Symbol("fft_in", integer=True), sp.Symbol("chunk_in", integer=True)
+        Dn = D.subs(FI, a).subs(CI, b)
+        okp, resid = ineq.prove_ge(Dn, a - 1 + b, {a: 1, b: 1})
+        ok = bool(okp) and nbit(ch) == nbit(inits.get("nbr_channels")) and not (Dn.free_symbols - {a, b})
+        detail = "input_buffers holds %s frames per channel; a call appends chunk_size_in frames behind up to fft_size_in − 1 carried ones: relaxed slack %s" % (Dn, resid)
+    rep.ob(R, "FftFixedIn/staging-capacity", ok, detail + " (the append loop is a zip: frames that do not fit are silently dropped)", loc(cfn))
+
+
 def rule_fft_capacity(rep):
     """FftFixedOut writes whole FFT blocks into output_buffers[chan][saved..]; the buffer holds chunk_size_out + fft_size_out frames.
     That suffices only if the number of blocks requested is ceil((chunk_size_out − saved)/fft_size_out) (and none once saved ≥ chunk_size_out)."""
@@ -631,6 +675,7 @@ def run(rep):
     rep.guarded("R-C03-subindex", rule_subindex)
     rep.guarded("R-C03-panic-sites", rule_panics)
     rep.guarded("R-C03-fft-capacity", rule_fft_capacity)
+    rep.guarded("R-C03-fft-capacity", rule_fft_buffers)
     # the (index, sub-index) pairs handed to the kernels come from get_nearest_time{,s_2,_3,_4}: their wrap (sub-index < factor, carry into the index)
     # is what keeps the kernels' `subindex < nbr_sincs` assertion from firing - shared with C01
     import C01
@@ -686,7 +731,7 @@ def run(rep):
     rep.floor("R-C03-margin", 2 + 9 + 9)
     rep.floor("R-C03-history", 2)
     rep.floor("R-C03-subindex", 2)
-    rep.floor("R-C03-fft-capacity", 1)
+    rep.floor("R-C03-fft-capacity", 5)
     rep.floor("R-C03-panic-sites", 21)
     rep.floor("R-C03-cpu-guard", 4 + 1 + 3 * (4 + 1 + 1) + 6)
     rep.floor("R-C03-alloc", 4)
